@@ -1,11 +1,344 @@
 import SageModel.Proto
+import SageModel.Model.C15
 
-/-! Driver ops for C15 (stub: no ops yet). -/
+/-! Driver ops for C15.
+
+```
+gauss n m A[n*n f64] B[n*m f64]                    | 0 | 1 X[n*m f64]
+lda n p F[n*p f64] decoy[n 0/1] perm[n]            | W W'        W = 0 | 1 p w[p f64]
+scorepsms n (21 fields)*n                          | fitted n (score:f32 ln1p:f32 pe:f64 l1..l8:f64)*n
+```
+
+`gauss` and `lda` are compared **bit-exactly** (`+ − × ÷ sqrt` and comparisons only, same order of
+operations; NaNs canonicalised). The spec is evaluated in exact ℚ on the IMPLEMENTATION's reply.
+For `scorepsms` the model runs the WHOLE of `score_psms` up to the discriminant scores (20-column
+feature transform, `train`, the finite-eigenvector guard, `score`, the `as f32` cast) and the fallback of
+`Runner::spectrum_fdr`, bit-exactly, taking as DATA from the harness the values Lean cannot compute:
+`f64::ln_1p` of eight fields and `f32::ln_1p(-poisson)` (each checked against an independent evaluation
+within 16 f64 / 4 f32 ulps) and the KDE mass-error posterior (feature 5; the KDE is C14's subject).
+The later PEP/KDE part of `score_psms` (posterior_error field) is not compared.
+-/
 namespace Sage.C15
 open Sage.Proto
 
+def qnan64 : Nat := 0x7ff8000000000000
+def qnan32 : Nat := 0x7fc00000
+
+def outF (x : Float) : String := if x.isNaN then toString qnan64 else outF64 x
+def outF32c (x : Float32) : String := if x.isNaN then toString qnan32 else outF32 x
+
+def chunk {β : Type} (rows cols : Nat) (data : List β) : List (List β) :=
+  (List.range rows).map fun i => (data.drop (i * cols)).take cols
+
+def join (l : List String) : String := " ".intercalate l
+
+def finiteBits (b : Nat) : Bool := (b / 2^52) % 2048 != 2047
+
+def toQ (x : Float) : Rat := ratOfFloat x
+def matQ (m : Mat Float) : Mat Rat := m.map fun r => r.map toQ
+
+/-- the regularisers the real loop tries, as the exact values of the `f64`s it computes -/
+def ladderQ : List Rat := (ladder constsF 64 constsF.eps0).map toQ
+
+/-- exact symmetric-positive-semidefinite test: eliminate with the diagonal as pivot; a zero
+    diagonal entry needs a zero row; a negative one refutes -/
+def isPSDLoop : Nat → Mat Rat → Bool
+  | 0, _ => true
+  | fuel + 1, m =>
+    match m with
+    | [] => true
+    | r0 :: rest =>
+      let a := r0.getD 0 0
+      if a < 0 then false
+      else if a = 0 then
+        r0.all (· = 0) && isPSDLoop fuel (rest.map fun r => r.drop 1)
+      else
+        let tail0 := r0.drop 1
+        isPSDLoop fuel (rest.map fun r =>
+          let f := r.getD 0 0 / a
+          List.zipWith (fun x y => x - f * y) (r.drop 1) tail0)
+
+def isSymmetric (m : Mat Rat) : Bool :=
+  let n := m.length
+  (List.range n).all fun i => (List.range n).all fun j => get m i j == get m j i
+
+def isPSD (m : Mat Rat) : Bool := isSymmetric m && isPSDLoop m.length m
+
+/-- backward-error tolerance of the gauss spec: `1e-6` (the code itself tolerates `1e-8` per
+    normalised off-diagonal entry, so a returned `X` is exact only up to about `n·1e-8`) -/
+def tauGauss : Rat := 1 / 1000000
+
+def parseOptVecs (toks : List String) : Option (List (Option (List Nat))) :=
+  run (do
+    let w ← opt (list nat)
+    let w' ← opt (list nat)
+    pure [w, w']) toks
+
+/-- one direction judged against the exact Fisher direction; returns the verdict and, when the
+    direction was accepted, the angle bound that was used (for the row-order clause) -/
+def judgeDir (p : Nat) (s : Stats Rat) (w : List Rat) : String × Option (Rat × List Rat) :=
+  let d := List.zipWith (· - ·) s.muTarget s.muDecoy
+  -- orientation, with the rounding allowance of the two f64 dot products the code compares
+  let allow := Q.dyadicInv 50 * ((List.zipWith (fun a b => Q.absq a * Q.absq b) s.muTarget w).foldl (· + ·) 0
+                              + (List.zipWith (fun a b => Q.absq a * Q.absq b) s.muDecoy w).foldl (· + ·) 0)
+  if Q.dotq d w < -allow then ("bad:orientation", none) else
+  if d.all (· = 0) || w.all (· = 0) then ("ok", none) else
+  -- Fisher direction of the regularised problem, for SOME ε of the ladder
+  -- accepted iff it matches the exact regularised Fisher direction for SOME ε of the ladder at which
+  -- the bound is meaningful; rejected only if ε₀ itself (the first the code tries, where a
+  -- well-conditioned system cannot fail) is well-conditioned enough to be judged
+  let rec go : List Rat → Bool → Bool → String × Option (Rat × List Rat)
+    | [], judged, _ => (if judged then "bad:not_fisher" else "na", none)
+    | eps :: rest, judged, first =>
+      let ae := Q.addDiag s.sw eps
+      -- forward error of elimination with partial pivoting: c·n·κ∞(A)·u normwise, in the coordinates
+      -- the code works in (an equilibrated κ was tried and is NOT a valid bound for this solver: on
+      -- ill-scaled, rank-deficient S_w the observed error exceeded 10⁵·κ(DAD)·u); `sc` is kept as the
+      -- identity scaling
+      let sc : List Rat := ae.map fun _ => 1
+      match Q.cond (Q.scaleMat sc ae) with
+      | none => go rest judged false
+      | some kappa =>
+        let bound := (4096 * (p : Rat)) * kappa * Q.dyadicInv 53
+        if bound > 1 / 10 then go rest judged false else
+        match Q.solveExact ae (d.map fun x => [x]) with
+        | none => go rest judged false
+        | some f =>
+          let f := List.zipWith (fun r t => r.getD 0 0 / t) f sc
+          let w := List.zipWith (· / ·) w sc
+          let (num, den) := Q.sin2 w f
+          if Q.dotq w f ≥ 0 && decide (num ≤ bound * bound * den) then ("ok", some (bound, sc))
+          else go rest (judged || first) false
+  let (v, b) := go ladderQ false true
+  if v == "bad:not_fisher" then
+    -- the power method starts from the overall mean; say so when that start is (almost) orthogonal
+    -- to the class-mean difference, the one situation in which one exact step does not reach the
+    -- Fisher direction
+    let (num, den) := Q.sin2 d s.xbar
+    if den = 0 || decide (den - num < den / 100000000) then ("bad:not_fisher_start_orthogonal", none) else (v, b)
+  else (v, b)
+
+def specLda (n p : Nat) (feats : Mat Float) (decoy : List Bool) (perm : List Nat) (impl : List String) : String :=
+  if impl == ["panic"] then (if decoy.length == n then "bad:panic" else "ok") else
+  match parseOptVecs impl with
+  | none => "bad:unparsable_reply"
+  | some ws =>
+    if !(feats.all fun r => r.all Float.isFinite) then "na" else
+    let nd := (decoy.filter id).length
+    let nt := decoy.length - nd
+    if nd == 0 || nt == 0 then
+      (if ws.all Option.isNone then "ok" else "bad:fitted_with_empty_class") else
+    if p == 0 then "na" else
+    let fq := matQ feats
+    let s := stats fq decoy p
+    let fq' := perm.map fun k => fq.getD k []
+    let decoy' := perm.map fun k => decoy.getD k false
+    let s' := stats fq' decoy' p
+    let judge (s : Stats Rat) (w : Option (List Nat)) : String × Option (Rat × List Rat) :=
+      match w with
+      | none =>
+        -- "reports failure" is allowed by the property text, also when the failure is spurious
+        -- (observation corpus/C15/observation-spurious-failure-*.req, theorem solve_fails_on_spd_witness)
+        ("ok", none)
+      | some bits =>
+        if bits.length != p then ("bad:direction_length", none) else
+        if !(bits.all finiteBits) then ("na", none) else
+        judgeDir p s (bits.map fun b => (ratOfF64Bits b).getD 0)
+    -- narrow signature of the known finding C15-tiny-scale-early-stop: every |feature| ≤ 1e-7
+    let tiny := fq.all fun r => r.all fun x => decide (Q.absq x ≤ 1 / 10000000)
+    let relabel (v : String) : String := if v == "bad:not_fisher" && tiny then "bad:not_fisher_tiny_scale" else v
+    let (v1, b1) := judge s (ws.getD 0 none)
+    if v1.startsWith "bad" then relabel v1 else
+    let (v2, b2) := judge s' (ws.getD 1 none)
+    if v2.startsWith "bad" then relabel v2 ++ "_permuted" else
+    match ws.getD 0 none, ws.getD 1 none, b1, b2 with
+    | some w, some w', some (b1, sc), some (b2, _) =>
+      -- same standardised coordinates as the Fisher clause (the exact statistics of the two row
+      -- orders are equal: theorem `stats_perm`)
+      let wq := List.zipWith (· / ·) (w.map fun b => (ratOfF64Bits b).getD 0) sc
+      let wq' := List.zipWith (· / ·) (w'.map fun b => (ratOfF64Bits b).getD 0) sc
+      let (num, den) := Q.sin2 wq wq'
+      let b := b1 + b2
+      if Q.dotq wq wq' ≥ 0 && decide (num ≤ b * b * den) then "ok" else "bad:row_order"
+    | _, _, _, _ => if v1 == "na" || v2 == "na" then "na" else "ok"
+
+def specGauss (n m : Nat) (a b : Mat Float) (impl : List String) : String :=
+  if impl == ["panic"] then "bad:panic" else
+  if !((a.all fun r => r.all Float.isFinite) && (b.all fun r => r.all Float.isFinite)) then "na" else
+  let aq := matQ a
+  if !(isPSD aq) then "na" else
+  match impl with
+  | ["0"] =>
+    -- "reports failure" is allowed by the property text, also when the failure is spurious
+    -- (observation corpus/C15/observation-spurious-failure-block-diagonal.req)
+    "ok"
+  | "1" :: rest =>
+    match run (listN nat (n * m)) rest with
+    | none => "bad:unparsable_reply"
+    | some bits =>
+      if !(bits.all finiteBits) then "bad:nonfinite_solution" else
+      let x : Mat Rat := chunk n m (bits.map fun v => (ratOfF64Bits v).getD 0)
+      if Q.gaussOk tauGauss ladderQ aq x (matQ b) m then "ok" else
+      -- narrow signature of the known finding C15-silently-wrong-singular-illscaled: A is exactly
+      -- singular (exact-ℚ rank < n) AND max |A_ij| ≥ 1e8 (the first regularisers are absorbed)
+      let singular := (Q.solveExact aq (Q.identity n)).isNone
+      let big := decide (aq.foldl (fun mx r => Q.maxq mx (Q.normInfV r)) 0 ≥ 100000000)
+      if singular && big then "bad:silently_wrong_singular_illscaled" else "bad:silently_wrong"
+  | _ => "bad:unparsable_reply"
+
+/-! ### scorepsms -/
+
+def psm : P PsmRec := do
+  let label ← int; let rank ← nat; let charge ← nat
+  let hyperscore ← f64; let deltaNext ← f64; let deltaBest ← f64
+  let deltaMass ← f32; let isotopeError ← f32; let averagePpm ← f32
+  let poisson ← f64; let matchedIntensityPct ← f32
+  let matchedPeaks ← nat; let longestB ← nat; let longestY ← nat; let peptideLen ← nat
+  let missedCleavages ← nat
+  let alignedRt ← f32; let ims ← f32; let deltaRtModel ← f32; let deltaImsModel ← f32
+  let longestYPct ← f32
+  pure { label, rank, charge, hyperscore, deltaNext, deltaBest, deltaMass, isotopeError, averagePpm,
+         poisson, matchedIntensityPct, matchedPeaks, longestB, longestY, peptideLen, missedCleavages,
+         alignedRt, ims, deltaRtModel, deltaImsModel, longestYPct }
+
+/-- `x.ln_1p()` is finite iff `x` is finite and `x > -1` -/
+def ln1pFinite (x : Float) : Bool := x.isFinite && decide (x > -1.0)
+
+/-- does the feature transform of `score_psms` produce a non-finite entry for this record?
+    (`poisson` is masked to 3.5, `delta_mass` goes through the KDE model and is not judged here) -/
+def transformNonFinite (q : PsmRec) : Bool :=
+  !(ln1pFinite q.hyperscore && ln1pFinite q.deltaNext && ln1pFinite q.deltaBest
+    && q.isotopeError.isFinite && q.averagePpm.isFinite && ln1pFinite q.matchedIntensityPct.toFloat
+    && q.peptideLen != 0 && q.alignedRt.isFinite && q.ims.isFinite
+    && !q.deltaRtModel.isNaN && !q.deltaImsModel.isNaN)
+
+/-- independent f64 evaluation of `ln_1p` on an f32 argument (Kahan's correction) -/
+def ln1pRef (x32 : Float32) : Float32 :=
+  let x := x32.toFloat
+  if x.isNaN then x32 else
+  if x == Float.ofBits 0x7FF0000000000000 then x32 else
+  let u := 1.0 + x
+  (if u == 1.0 then x else Float.log u * x / (u - 1.0)).toFloat32
+
+def f32Q (x : Float32) : Rat := (ratOfF32Bits x.toBits.toNat).getD 0
+
+/-- independent f64 evaluation of `ln_1p` (Kahan's correction), a few ulps accurate -/
+def ln1pRef64 (x : Float) : Float :=
+  if x.isNaN then x else
+  if x == Float.ofBits 0x7FF0000000000000 then x else
+  let u := 1.0 + x
+  if u == 1.0 then x else Float.log u * x / (u - 1.0)
+
+def closeF64 (want got : Float) (ulps : Nat) : Bool :=
+  (want.isNaN && got.isNaN) || (!want.isNaN && !got.isNaN && ulpDistF64 want got ≤ ulps)
+
+def aux : P PsmAux := do
+  let pe ← f64
+  let a ← f64; let b ← f64; let c ← f64; let d ← f64; let e ← f64; let f ← f64; let g ← f64; let h ← f64
+  pure ⟨pe, a, b, c, d, e, f, g, h⟩
+
+def handleScorePsms (args impl : List String) : Option Reply := do
+  let ps ← run (list psm) args
+  let n := ps.length
+  let parsed := run (do
+    let fitted ← bool
+    let k ← nat
+    let l ← listN (do let s ← f32; let l ← f32; let a ← aux; pure (s, l, a)) k
+    pure (fitted, l)) impl
+  match parsed with
+  | none =>
+    pure { model := "unparsed-impl-reply", agree := false,
+           spec := if impl == ["panic"] then "bad:panic" else "bad:unparsable_reply" }
+  | some (fitted, rows) =>
+    if rows.length != n then
+      pure { model := "length", agree := false, spec := "bad:length" }
+    else
+    let nd := (ps.filter fun q => q.label == -1).length
+    let nt := n - nd
+    -- the whole of score_psms, run by the model on the 20-column matrix it rebuilds
+    let fit := scorePsmsModel (ps.zip (rows.map fun r => r.2.2))
+    let fittedM := fit.isSome
+    -- the fallback of Runner::spectrum_fdr, bit-exact in f32 from the implementation's ln_1p value
+    let scoresM : List Float32 :=
+      match fit with
+      | some sc => sc
+      | none => (ps.zip rows).map fun (q, r) =>
+        fallback (α := Float32) (β := Float) Float.toFloat32 (fun _ => r.2.1) 3.0 q.poisson q.longestYPct
+    let outAux (a : PsmAux) : List String :=
+      [a.pe, a.lnHyperscore, a.lnDeltaNext, a.lnDeltaBest, a.lnNegPoisson, a.lnMatchedIntensityPct,
+       a.lnLongestB, a.lnLongestY, a.lnPeptideLen].map outF
+    let model := join (outBool fittedM :: toString n ::
+      ((scoresM.zip rows).flatMap fun (s, r) => [outF32c s, outF32c r.2.1] ++ outAux r.2.2))
+    -- spec on the implementation's reply
+    let scores := rows.map (·.1)
+    let spec : String :=
+      let badLn := (ps.zip rows).any fun (q, r) =>
+        let want := ln1pRef (-q.poisson).toFloat32
+        !((want.isNaN && r.2.1.isNaN) || (!want.isNaN && !r.2.1.isNaN && ulpDistF32 want r.2.1 ≤ 4))
+      let badLn64 := (ps.zip rows).any fun (q, r) =>
+        let a := r.2.2
+        !(closeF64 (ln1pRef64 q.hyperscore) a.lnHyperscore 16 && closeF64 (ln1pRef64 q.deltaNext) a.lnDeltaNext 16
+          && closeF64 (ln1pRef64 q.deltaBest) a.lnDeltaBest 16 && closeF64 (ln1pRef64 (-q.poisson)) a.lnNegPoisson 16
+          && closeF64 (ln1pRef64 q.matchedIntensityPct.toFloat) a.lnMatchedIntensityPct 16
+          && closeF64 (ln1pRef64 (Float.ofNat q.longestB)) a.lnLongestB 16
+          && closeF64 (ln1pRef64 (Float.ofNat q.longestY)) a.lnLongestY 16
+          && closeF64 (ln1pRef64 (Float.ofNat q.peptideLen)) a.lnPeptideLen 16)
+      if badLn || badLn64 then "bad:ln1p_value" else
+      if fitted && (nd == 0 || nt == 0 || ps.any transformNonFinite) then "bad:fitted_despite_unfittable_input" else
+      if !(scores.all Float32.isFinite) then
+        (if fitted then "bad:nonfinite_score_fitted"
+         -- the fallback's domain (theorem fallback_finite): poisson finite and ≤ 0, longest_y_pct finite;
+         -- scoring.rs can no longer produce poisson = -inf (repaired in /repo)
+         else if ps.all (fun q => q.poisson.isFinite && decide (q.poisson ≤ 0.0) && q.longestYPct.isFinite)
+           then "bad:nonfinite_fallback" else "na") else
+      if fitted then
+        let sumT := ((ps.zip scores).filter fun (q, _) => q.label != -1).foldl (fun a (_, s) => a + f32Q s) (0 : Rat)
+        let sumD := ((ps.zip scores).filter fun (q, _) => q.label == -1).foldl (fun a (_, s) => a + f32Q s) (0 : Rat)
+        let absSum := scores.foldl (fun a s => a + Q.absq (f32Q s)) (0 : Rat)
+        -- allowance: one f32 rounding per score (2^-24 relative) on each side
+        let allow := Q.dyadicInv 22 * absSum / (n : Rat)
+        if sumT / (nt : Rat) + allow < sumD / (nd : Rat) then "bad:targets_not_higher" else "ok"
+      else "ok"
+    pure (exact model (join impl) spec)
+
 def handle (op : String) (args impl : List String) : Option Reply :=
   match op with
+  | "gauss" => do
+    let (n, m, a, b) ← run (do
+      let n ← nat; let m ← nat
+      let a ← listN f64 (n * n)
+      let b ← listN f64 (n * m)
+      pure (n, m, a, b)) args
+    let A := chunk n n a
+    let B := chunk n m b
+    let model := match solve constsF n A B with
+      | none => "0"
+      | some x => join ("1" :: x.flatten.map outF)
+    pure (exact model (join impl) (specGauss n m A B impl))
+  | "lda" => do
+    let (n, p, f, decoy, perm) ← run (do
+      let n ← nat; let p ← nat
+      let f ← listN f64 (n * p)
+      let d ← listN bool n
+      let perm ← listN nat n
+      pure (n, p, f, d, perm)) args
+    let F := chunk n p f
+    let outW (w : Option (Vec Float)) : String :=
+      match w with
+      | none => "0"
+      | some w =>
+        -- the harness reads the private eigenvector back as `score(identity)`
+        let ident : Mat Float := (List.range p).map fun i => (List.range p).map fun j => if i = j then 1.0 else 0.0
+        let r := score w ident
+        let bad := r.any fun x => !x.isFinite
+        join ("1" :: toString p :: r.map fun x => if bad then toString qnan64 else outF x)
+    let w := train constsF Float.sqrt F decoy p
+    let F' := perm.map fun k => F.getD k []
+    let decoy' := perm.map fun k => decoy.getD k false
+    let w' := train constsF Float.sqrt F' decoy' p
+    let model := outW w ++ " " ++ outW w'
+    pure (exact model (join impl) (specLda n p F decoy perm impl))
+  | "scorepsms" => handleScorePsms args impl
   | _ => none
 
 end Sage.C15
